@@ -320,9 +320,13 @@ func solveOne(dir string, idx int, query string, timeoutS int, nsolvers int) sol
 	var last solveResult
 	var total float64
 	var outs []string
+	nerr := 0
 	for i := 0; i < n; i++ {
 		r := <-ch
 		total += r.time
+		if strings.HasPrefix(strings.TrimSpace(r.out), "(error") {
+			nerr++
+		}
 		outs = append(outs, fmt.Sprintf("[%s %.2fs] %s", r.solver, r.time, firstLines(r.out, 3)))
 		if r.status == "unsat" || r.status == "sat" {
 			cancel()
@@ -331,6 +335,9 @@ func solveOne(dir string, idx int, query string, timeoutS int, nsolvers int) sol
 		last = r
 	}
 	last.status = "unknown"
+	if nerr == n {
+		last.status = "error" // every back end rejected the query text: a defect of the generator, not a timeout
+	}
 	last.out = strings.Join(outs, "\n")
 	last.solver = "none"
 	return last
@@ -497,8 +504,14 @@ func (w *World) discharge(jobs []*job, timeoutS, workers, nsolvers int, keepDir 
 	wg.Wait()
 	if keepDir != "" {
 		os.MkdirAll(keepDir, 0o755)
+		nfail := map[string]int{}
 		for _, j := range jobs {
-			if j.o.Status == "failed" || j.o.Status == "cover-vacuous" || os.Getenv("GOVC_KEEPALL") != "" {
+			if j.o.Status == "failed" || j.o.Status == "cover-vacuous" {
+				// one file per failed instance (an obligation site reached along several paths has several)
+				nfail[j.o.Name]++
+				os.WriteFile(filepath.Join(keepDir, fmt.Sprintf("%s.fail%d.smt2", sanitize(j.o.Name), nfail[j.o.Name])), []byte(j.query), 0o644)
+			}
+			if os.Getenv("GOVC_KEEPALL") != "" {
 				os.WriteFile(filepath.Join(keepDir, sanitize(j.o.Name)+".smt2"), []byte(j.query), 0o644)
 				if j.light != "" && os.Getenv("GOVC_KEEPALL") != "" {
 					os.WriteFile(filepath.Join(keepDir, sanitize(j.o.Name)+".light.smt2"), []byte(j.light), 0o644)
